@@ -1236,6 +1236,15 @@ func (e *Engine) evalCall(env *Env, n *ECall) (TV, error) {
 	if tv, handled, err := e.bufSpec(env, n.Fun, n.Args); handled {
 		return tv, err
 	}
+	if tv, handled, err := e.rangeSpec(env, n.Fun, n.Args); handled { // models_coord.go
+		return tv, err
+	}
+	if tv, handled, err := e.timeSpec(env, n.Fun, n.Args); handled { // models_coord.go
+		return tv, err
+	}
+	if tv, handled, err := e.freshSpec(env, n.Fun, n.Args); handled { // models_coord.go
+		return tv, err
+	}
 	if n.Fun == "as" && len(n.Args) == 2 {
 		// as(x, "*T"): the pointer held by interface value x, read as *T (no check: use together with a type fact)
 		ts, ok := n.Args[1].(*EStr)
